@@ -519,6 +519,52 @@ namespace io {
         }
     };
 
+    // P1: the next member is started with a second inflateInit2 on the live stream (old state leaked), close() never releases it;
+    // P2: Z_FINISH with a 10 KiB window; Z1: all objects decompress into one function-local static buffer
+    class BadStateGzipBufferDecompressor final : public Decompressor {
+        const char* m_buffer;
+        z_stream m_zstream;
+
+    public:
+        BadStateGzipBufferDecompressor(const char* buffer, const std::size_t size) : m_buffer(buffer), m_zstream() {
+            m_zstream.next_in = reinterpret_cast<unsigned char*>(const_cast<char*>(buffer));
+            m_zstream.avail_in = static_cast<unsigned int>(size);
+            const int result = inflateInit2(&m_zstream, MAX_WBITS | 32);
+            if (result != Z_OK) {
+                throw gzip_error{"init failed", result};
+            }
+        }
+
+        std::string read() override {
+            static std::string scratch;
+            std::string output;
+            while (m_buffer && output.empty()) {
+                const std::size_t buffer_size = 10240;
+                output.resize(buffer_size);
+                scratch.resize(buffer_size);
+                m_zstream.next_out = reinterpret_cast<unsigned char*>(&*output.begin());
+                m_zstream.avail_out = buffer_size;
+                int result = inflate(&m_zstream, Z_FINISH);
+                if (result == Z_STREAM_END && m_zstream.avail_in != 0) {
+                    result = inflateInit2(&m_zstream, MAX_WBITS | 32);
+                } else if (result == Z_OK && m_zstream.avail_in == 0 && m_zstream.avail_out != 0) {
+                    result = Z_BUF_ERROR;
+                }
+                if (result != Z_OK) {
+                    m_buffer = nullptr;
+                }
+                if (result != Z_OK && result != Z_STREAM_END) {
+                    throw gzip_error{"inflate failed", result};
+                }
+                output.resize(static_cast<std::size_t>(m_zstream.next_out - reinterpret_cast<const unsigned char*>(output.data())));
+            }
+            return output;
+        }
+
+        void close() override {
+        }
+    };
+
     // G1: the loop is guarded by the remaining-size member, which the constructor takes from an integral parameter: an object over
     // 0 bytes (a compressed buffer truncated to nothing) returns a clean end of data without inflate ever having been asked
     class BadSizeGuardGzipBufferDecompressor final : public Decompressor {
@@ -669,6 +715,8 @@ void c09_positive_driver(FILE* f, const char* p, std::size_t n) {
     osmium::io::BadBzip2Decompressor d{f};
     osmium::io::BadReopenBzip2Decompressor e{f};
     osmium::io::BadBzip2BufferDecompressor g{p, n};
+    osmium::io::BadStateGzipBufferDecompressor y{p, n};
+    (void)y.read();
     osmium::io::BadSizeGuardGzipBufferDecompressor z{p, n};
     (void)z.read();
     osmium::io::BadOverwriteGzipDecompressor w{0};
